@@ -11,6 +11,6 @@ cov = dict(states=0, transitions=0, traces_validated_against_impl=0, samples=[],
 findings, inc, ass = [], [], []
 mharness.run(prop, tier, 0, cov, findings, inc, ass, only=only)
 for h in cov["harnesses"]:
-    print("%-28s %-12s paths=%-6d dec=%-6d obl=%d/%d q=%d solver=%.1fs wall=%.1fs %s" % (h["harness"], h["status"], h["paths"], h["decisions"], h["discharged"], h["obligations"], h["queries"], h["solver_s"], h["wall_s"], h["why"][:300]))
+    print("%-30s %-12s paths=%-6d dec=%-6d obl=%d/%d q=%d solver=%.1fs wall=%.1fs %s" % (h["harness"], h["status"], h["paths"], h["decisions"], h["discharged"], h["obligations"], h["queries"], h["solver_s"], h["wall_s"], h["why"][:300]))
 for f in findings:
     print("FINDING", f.harness, "|", f.site, "|", f.shape, "|", f.detail[:300])
